@@ -18,7 +18,8 @@
                                    the judge computes for the same case.
 
   FULL statement (not proved): the same for every list of `Rev`s.  Proved here (`_partial`): every revision is
-  `SimpleRevAny` - scalar objects written canonically (`SimpleObj`: `spell ⇒ Spells` is proved for scalars only), kind
+  `SimpleRevAny` - objects `SimpleObj` (since follow-up C03e: values of ANY shape in the encoder's domain and stream
+  objects with a direct /Length, see Props/C04RenderDeep.lean; originally scalars only), kind
   0 or 1, no object-stream members, no offset swap / relabelling (ill-formed on purpose), size bounds - and the history
   is `HistOK`: at least one revision, STABLE GENERATIONS over all revisions (the opposite is the code's known defect
   generation-changed), cross-reference stream objects not mentioned by later revisions (infrastructure objects are not
@@ -156,7 +157,7 @@ def exHistR : List Rev := [exRevA, exRevB, exRevC]
 
 theorem exObj_simple (n : Nat) (v : Obj) (ch : Ch) (pad : Bytes) (atPad : Bool) (hpad : ∀ y ∈ pad, isWsEol y = true)
     (hn : n ≤ i64Max) (hwf : wf v = true) (hs : encSimple v) : SimpleObj (exObj n v ch pad atPad) :=
-  ⟨wsRun_of_ws _ hpad, hn, (by show (0 : Nat) ≤ i64Max; decide), v, rfl, hwf, hs⟩
+  SimpleObj.of_scalar (wsRun_of_ws _ hpad) hn (by show (0 : Nat) ≤ i64Max; decide) v rfl hwf hs
 
 theorem exRevA_simple : SimpleRev exRevA where
   kind := rfl
